@@ -19,10 +19,12 @@ BUILD = os.path.join(ROOT, "build")
 OCAMLRUNPARAM = "s=4M,h=256M"
 ALLOWED_ASSUMPTIONS_PREFIX = (
     # kernel primitives (not axioms): listed by Print Assumptions when PrimFloat / Uint63 are used
-    "PrimFloat.", "Uint63.", "PrimInt63.", "FloatOps.", "float", "int",
+    "PrimFloat.", "PrimInt63.",
 )
 
 sys.path.insert(0, "/repo")
+import logging  # noqa: E402
+logging.disable(logging.CRITICAL)  # the library logs retries / unknown frames: not part of the observed behaviour
 
 
 def sh(cmd, cwd=ROOT, timeout=3600, env=None):
